@@ -13,7 +13,7 @@ use std::str::FromStr;
 pub const META: PropMeta = PropMeta {
     level: "exploration",
     rule: "complete enumeration of each finite domain against tables written in the harness from the specifications: all 2^32 codes for u32->BoxType->u32, u32->FourCC->u32, BoxType->FourCC and TrackType::try_from(&FourCC); named BoxType variants <-> registered four characters; textual form (Display/FromStr/Debug) for every code whose four bytes are valid UTF-8 in the enumerated text domain (quick: all printable-ASCII codes + a 2^24 stride sample of the rest; thorough: all 2^32); all 2^16 packed language codes through MdhdBox decode/encode and all 26^3 three-letter strings; FixedPointU8/I8 over all 2^8/2^16 values, FixedPointU16 over all 2^16 values of new() and (thorough) all 2^32 of new_raw(); all 2^16 AvcProfile pairs; all 256 bytes of AudioObjectType, SampleFreqIndex (+freq()), ChannelConfig; DataType (quick: boundaries + stride, thorough: all 2^32); MediaType/TrackType string tables over all strings of length <= 4 from a 14-letter alphabet. Every enumerated point is one case; non-trivial = the point is in a mapping's accepted set or adjacent to it (+-1 or one bit flipped); distinct_nontrivial counts those points.",
-    assumptions: &["for codes whose bytes are not valid UTF-8 the textual form is necessarily lossy; nothing is asserted about FromStr(Display(c)) there", "for negative raw 8.8 values value() may round toward zero or toward minus infinity (the statement does not define it); both are accepted"],
+    assumptions: &["for codes whose bytes are not valid UTF-8 the textual form is necessarily lossy; nothing is asserted about FromStr(Display(c)) there", "value() of a signed 8.8 value is the integer part of raw/256 truncated toward zero (how the wrapper defines it: Ratio::to_integer)"],
 };
 
 /// registered four-character codes of the named box types (from ISO/IEC 14496-12/-14/-15, 3GPP, VP9, iTunes)
@@ -235,9 +235,9 @@ fn fixed_points(a: &mut Acc, full_u32: bool, shard: u32, nshards: u32) {
             }
             let ri = r16 as i16;
             let g = mp4::FixedPointI8::new_raw(ri);
-            let floor = (ri >> 8) as i8;
+            // integer part as the library defines value(): the ratio raw/256 truncated toward zero
             let trunc = (ri / 256) as i8;
-            if g.raw_value() != ri || (g.value() != floor && g.value() != trunc) {
+            if g.raw_value() != ri || g.value() != trunc {
                 a.fail("c16:fixedi8-raw", format!("FixedPointI8::new_raw({}) -> value {} raw {}", ri, g.value(), g.raw_value()), json!({"raw": ri}));
             }
             let h = mp4::FixedPointU16::new(r16);
